@@ -93,6 +93,7 @@ struct C16 : Scenario {
 		o.max_payload = 600;
 		o.tzoff = 0;
 		o.bad_crc_sometimes = true;
+		o.ghosts = true;
 		o.full_payload_sometimes = rng.chance(1, 10);
 		gen_tree(rng, o, p.members);
 		if (rng.chance(1, 8)) {
@@ -248,6 +249,26 @@ struct C16 : Scenario {
 		}
 		if (res.ok && (!same_headers(r1.H, r0.H) || !same_headers(r2.H, r0.H)))
 			res.fail("C16.headers", "headers:modes", "seekable-file reference yields different headers when listing, reading and checking");
+		// injected stream faults (a skip that fails, a read error): iteration may end early, but every header that is
+		// returned must be the member that stands at that place in the reference sequence - never something else
+		for (int k = 0; k < 6 && res.ok; ++k) {
+			Fnv hh; hh.u64(p.run); hh.u64((uint64_t) k);
+			Task t = shifted;
+			apply_kind(t, KINDS[k]);
+			if (hh.h & 1) t.skipfail = (int64_t)((hh.h >> 8) % 3);
+			else t.errat = (int64_t)(plen + (hh.h >> 8) % (a.bytes.size() + 1));
+			for (int m = 0; m < 2 && res.ok; ++m) {
+				Pass q = traverse(full, t, m ? "read" : "list", budget);
+				++evals;
+				if (q.budget) { res.fail("C16.budget", std::string("budget:fault:") + KINDS[k], "traversal with an injected stream fault exceeded the step budget"); break; }
+				bool prefix = q.H.size() <= r0.H.size();
+				for (size_t i = 0; prefix && i < q.H.size(); ++i) if (!(q.H[i] == r0.H[i])) prefix = false;
+				if (!prefix)
+					res.fail("C16.headers_after_fault", std::string("fault:") + (t.skipfail >= 0 ? "skipfail" : "readerr"),
+					         strf("%s with %s: %zu headers returned and they are not a prefix of the %zu members of the archive", KINDS[k],
+					              t.skipfail >= 0 ? strf("skip call %lld failing", (long long) t.skipfail).c_str() : strf("a read error at offset %lld", (long long) t.errat).c_str(), q.H.size(), r0.H.size()));
+			}
+		}
 		// the tool: 'lha CMD ARCHIVE' against 'lha CMD -' (stdin as a pipe and as a seekable file): same stdout, same exit status
 		if (res.ok && !p.gets("clicmd").empty()) {
 			std::string cmd = p.gets("clicmd");
@@ -356,11 +377,39 @@ struct C13 : Scenario {
 			p.tasks.push_back(t);
 			return p;
 		}
+		if (fam == 2) {
+			// "every command of the tool returns": tool runs with truncated input, pre-existing files, a prompt whose
+			// answers run out, stdin as archive
+			p.scenario = "cli";
+			p.sets("variant", "cli");
+			TreeOpts o;
+			o.max_entries = 5;
+			o.max_payload = 300;
+			o.mac = rng.chance(1, 4);
+			o.full_payload_sometimes = false;
+			gen_tree(rng, o, p.members);
+			static const char *cmds[] = {"l", "v", "t", "p", "x", "e", "xn", "xf", "xq", "lv", "tq", "xi", "x", "e"};
+			p.argv = {"lha", cmds[rng.below(14)], rng.chance(1, 5) ? "-" : "/w/a.lzh"};
+			if (p.argv[2] == "-") p.sets("srckind", rng.chance(1, 2) ? "FILE_PIPE" : "FILE_SEEK");
+			else if (rng.chance(1, 3)) p.sets("srckind", rng.chance(1, 2) ? "FILE_PIPE" : "FILE_HALFSEEK");
+			BuiltArchive a = build_archive(p);
+			if (rng.chance(1, 2)) p.seti("trunc", (int64_t) rng.below(a.bytes.size() + 1));
+			if (rng.chance(1, 8)) p.seti("errat", (int64_t) rng.below(a.bytes.size() + 1));
+			for (auto &m : p.members)
+				if (m.kind == 'f' && rng.chance(1, 2)) {
+					FsEnt e; e.type = 'f'; e.path = "/w/x/y/root/" + m.gpath + m.gname; e.data = to_bytes("old"); e.mode = 0644; e.uid = e.gid = 0;
+					p.fs.push_back(e);
+				}
+			static const char *scripts[] = {"", "y\n", "n\n", "x\n", "\n", "a", "zz\nzz\n", "y\ny\n", "s"};
+			p.stdin_script = scripts[rng.below(9)];
+			return p;
+		}
 		p.scenario = "truncation_sweep";
 		TreeOpts o;
 		o.max_entries = 4;
 		o.max_payload = 300;
 		o.full_payload_sometimes = false;
+		o.mac = rng.chance(1, 4);
 		// the 2 MiB -lhx- state is zeroed at every open: keep it, but rarer, so that the offset sweep stays affordable
 		if (!rng.chance(1, 12)) o.methods = {"-lz4-", "-lz5-", "-lzs-", "-lh0-", "-lh1-", "-lh4-", "-lh5-", "-lh6-", "-lh7-", "-lk7-", "-pm0-", "-pm1-", "-pm2-"};
 		gen_tree(rng, o, p.members);
@@ -475,6 +524,24 @@ struct C13 : Scenario {
 		Counters fired;
 		uint64_t evals = 0;
 		if (p.scenario == "decoder_endless") return exec_decoder(p);
+		if (p.scenario == "cli") {
+			BuiltArchive a = build_archive(p);
+			CliEnv env(p);
+			// linear in the input plus a constant per member for the tool's own filesystem and terminal work
+			g_sim.budget = 20000 + 64 * a.bytes.size();
+			CliResult r = env.run(p, a.bytes);
+			if (r.budget)
+				res.fail("C13.liveness", "liveness:cli:" + p.argv[1].substr(0, 1), "'lha " + p.argv[1] + "' did not return: " + (g_sim.budget_where.empty() ? std::string("step budget exceeded") : g_sim.budget_where));
+			trace_str(r.out);
+			trace_u64((uint64_t) r.status);
+			count("kind.variant.cli");
+			count("kind.cli." + p.argv[1]);
+			if (r.exited) count("probe.tool_left_through_exit");
+			res.ops = 1;
+			res.nontrivial = true;
+			res.trace = finish_trace();
+			return res;
+		}
 		BuiltArchive a = build_archive(p);
 		const Bytes &arch = a.bytes;
 		if (p.tasks.empty()) return res;
